@@ -41,7 +41,10 @@ CLAIMED = {
     "C04": dict(
         text="Theorems over the Lean model of TimePoint.__sub__(TimePoint) (swap test, re-zone, ordinal dates, closed-form "
              "year range, borrow chain): the result is a d/h/m/s duration of length inst a - inst b with |h|<24, |m|,|s|<60 "
-             "and one sign; antisymmetry, b+(a-b)==a and (p+d)-p==d follow. Precision forms: C04_sub_rat / C04_add_back_rat "
+             "and one sign; antisymmetry, b+(a-b)==a and (p+d)-p==d follow; Props/C04b: the difference depends on the two instants only "
+             "(C04_depends_on_instants_only: other representations / offsets / 24:00 give the field-for-field same duration), is empty "
+             "exactly when a == b (C04_zero_iff_equal), takes its sign from the comparison (C04_sign_follows_cmp) and adds up: "
+             "(a-b)+(b-c) has the length of a-c (C04_chasles). Precision forms: C04_sub_rat / C04_add_back_rat "
              "(Props/C02q) prove the same for subTPQ over exact rationals with possibly absent minute/second slots, extending "
              "the integer model; the subq op ties it to the Python (length to 1 us, shape clauses judged on the "
              "implementation). Float-only deviations are known findings F13 (seconds == 60.0) and F17b (noise of mixed sign or "
